@@ -4,6 +4,7 @@ import (
 	"bytes"
 	"fmt"
 	"strings"
+	"time"
 
 	"verifharness/kit"
 
@@ -20,9 +21,9 @@ const bigLen = 70000
 type schedCase struct {
 	Kind    string     `json:"kind"` // "sched"
 	Init    int        `json:"init"`
-	Prog    []string   `json:"prog"`    // "put:3" "ins:1" "del" "putbig:7"
+	Prog    []string   `json:"prog"`    // "put:3" "ins:1" "del" "putbig:7" "inst:2" "cast:4" (the last two with a TTL of 1 s)
 	Readers [][]string `json:"readers"` // "get" | "ttlget"
-	Sched   []string   `json:"sched"`   // "W" | "R0" | "R1" ...
+	Sched   []string   `json:"sched"`   // "W" | "R0" | "R1" ... | "C" (the clock advances by 1 s)
 	Obs     []string   `json:"observed,omitempty"`
 	// legacy fields of older corpus files
 	Puts       int   `json:"puts,omitempty"`
@@ -63,7 +64,9 @@ func runSched(sc *schedCase) (kit.Case, error) {
 	sched := kit.NewSched()
 	wrap := &kit.Wrap{Inner: mem}
 	readOp := func(op string) bool { return op == "Get" || op == "TTLGet" }
-	writeOp := func(op string) bool { return op == "Put" || op == "InsertIfNotExists" || op == "CompareAndDelete" }
+	writeOp := func(op string) bool {
+		return op == "Put" || op == "InsertIfNotExists" || op == "CompareAndDelete" || op == "CompareAndSwap"
+	}
 	wrap.Before = func(c *kit.Call) kit.Verdict {
 		if p := sched.Current(); p != nil && readOp(c.Op) {
 			p.Yield("before-read")
@@ -97,6 +100,20 @@ func runSched(sc *schedCase) (kit.Case, error) {
 				fmt.Sscanf(w, "putbig:%d", &v)
 				cur = bytes.Repeat([]byte{byte(v)}, bigLen)
 				werr = cached.Put(schedPK, schedCC, bytes.Clone(cur))
+			case strings.HasPrefix(w, "inst:"):
+				fmt.Sscanf(w, "inst:%d", &v)
+				ok, e := cached.InsertIfNotExists(schedPK, schedCC, []byte{byte(v)}, 1)
+				if e != nil || !ok {
+					werr = fmt.Errorf("insert with TTL refused (%v, %v): the program must only contain writes that succeed", ok, e)
+				}
+				cur = []byte{byte(v)}
+			case strings.HasPrefix(w, "cast:"):
+				fmt.Sscanf(w, "cast:%d", &v)
+				ok, e := cached.CompareAndSwap(schedPK, schedCC, bytes.Clone(cur), []byte{byte(v)}, 1)
+				if e != nil || !ok {
+					werr = fmt.Errorf("swap with TTL refused (%v, %v): the program must only contain writes that succeed", ok, e)
+				}
+				cur = []byte{byte(v)}
 			case strings.HasPrefix(w, "put:"):
 				fmt.Sscanf(w, "put:%d", &v)
 				werr = cached.Put(schedPK, schedCC, []byte{byte(v)})
@@ -156,7 +173,16 @@ func runSched(sc *schedCase) (kit.Case, error) {
 	sc.Obs = nil
 	skipped := 0
 	wAtStart := true
+	clockSteps := 0
 	for _, who := range sc.Sched {
+		if who == "C" { // the clock advances by one second: a row or entry with the TTL of 1 s expires
+			clock.AdvanceSettle(time.Second)
+			clockSteps++
+			obs = append(obs, "SClock")
+			ps = append(ps, "PC")
+			sc.Obs = append(sc.Obs, "SClock")
+			continue
+		}
 		silent := who == "w" // "w": let the writer run the part of its operation that precedes the storage call
 		if silent {
 			if !wAtStart {
@@ -229,7 +255,7 @@ func runSched(sc *schedCase) (kit.Case, error) {
 		return kit.Case{}, werr
 	}
 	prog := make([]string, len(sc.Prog))
-	hasDel, hasBig := false, false
+	hasDel, hasBig, hasTTL := false, false, false
 	for i, w := range sc.Prog {
 		var v int
 		switch {
@@ -237,6 +263,14 @@ func runSched(sc *schedCase) (kit.Case, error) {
 			fmt.Sscanf(w, "putbig:%d", &v)
 			prog[i] = fmt.Sprintf("WPutBig %d", v)
 			hasBig = true
+		case strings.HasPrefix(w, "inst:"):
+			fmt.Sscanf(w, "inst:%d", &v)
+			prog[i] = fmt.Sprintf("WInsT %d", v)
+			hasTTL = true
+		case strings.HasPrefix(w, "cast:"):
+			fmt.Sscanf(w, "cast:%d", &v)
+			prog[i] = fmt.Sprintf("WCasT %d", v)
+			hasTTL = true
 		case strings.HasPrefix(w, "put:"):
 			fmt.Sscanf(w, "put:%d", &v)
 			prog[i] = fmt.Sprintf("WPut %d", v)
@@ -268,6 +302,15 @@ func runSched(sc *schedCase) (kit.Case, error) {
 	if hasBig {
 		tags = append(tags, "big-value-in-writer-program")
 	}
+	if hasTTL {
+		tags = append(tags, "ttl-write-in-writer-program")
+	}
+	if clockSteps > 0 {
+		tags = append(tags, "clock-steps")
+	}
+	if expiredEntryWindow(sc, ps, obs) {
+		tags = append(tags, "EXPDEL:expired-entry-dropped-under-a-read-in-flight")
+	}
 	if sc.Init < 0 {
 		tags = append(tags, "init:absent")
 	}
@@ -279,6 +322,40 @@ func runSched(sc *schedCase) (kit.Case, error) {
 		Desc:       sc,
 		Tags:       tags,
 	}, nil
+}
+
+// expiredEntryWindow recognises finding C07-EXPDEL by the observed timeline: some reader's read went to the
+// storage before a clock step and returned after a later TTLGet of another reader was answered "not found"
+// from the cache (the expired entry) - the window in which the dropped entry no longer guards the fill
+func expiredEntryWindow(sc *schedCase, ps, obs []string) bool {
+	opIdx := map[string]int{} // reads started per reader
+	ttlHitNone := func(k int) bool {
+		if !strings.HasPrefix(obs[k], "SGetHit") || !strings.HasSuffix(obs[k], " None") || !strings.HasPrefix(ps[k], "(PR ") {
+			return false
+		}
+		return true
+	}
+	_ = opIdx
+	for a := range obs {
+		if !strings.HasPrefix(obs[a], "SGetStart") {
+			continue
+		}
+		clock, hit := -1, -1
+		for k := a + 1; k < len(obs); k++ {
+			switch {
+			case obs[k] == "SClock" && clock < 0:
+				clock = k
+			case clock >= 0 && hit < 0 && ps[k] != ps[a] && ttlHitNone(k):
+				hit = k
+			case hit >= 0 && ps[k] == ps[a] && strings.HasPrefix(obs[k], "SGetDone (Some"):
+				return true
+			}
+			if ps[k] == ps[a] && strings.HasPrefix(obs[k], "SGetDone") {
+				break
+			}
+		}
+	}
+	return false
 }
 
 // lastStepOf: the observation of the most recent earlier step of process who
@@ -300,6 +377,15 @@ func lastStepOf(ps, obs []string, who string) string {
 func genSchedule(r *kit.Rng, sc *schedCase) []string {
 	cached := false   // an entry a reader can answer from
 	storeBig := false // the row in the storage is a big value (its entry would be the mark)
+	hasTTL := false
+	for _, w := range sc.Prog {
+		if strings.HasPrefix(w, "inst:") || strings.HasPrefix(w, "cast:") {
+			hasTTL = true
+		}
+	}
+	rowLive := sc.Init >= 0 // a row is there and has not expired
+	rowTTL := false         // ... and it will expire at the next clock step
+	clocks := 0
 	wLeft, wMid, wPre := len(sc.Prog), false, false
 	wi := 0
 	type rs struct {
@@ -315,11 +401,16 @@ func genSchedule(r *kit.Rng, sc *schedCase) []string {
 	var out []string
 	for {
 		var en []string
-		if wMid || wLeft > 0 {
+		// an insert (with or without TTL) succeeds only while no live row is there
+		blocked := !wMid && wLeft > 0 && rowLive && (strings.HasPrefix(sc.Prog[wi], "inst:") || strings.HasPrefix(sc.Prog[wi], "ins:"))
+		if wMid || (wLeft > 0 && !blocked) {
 			en = append(en, "W")
 		}
-		if !wMid && !wPre && wLeft > 0 {
+		if !wMid && !wPre && wLeft > 0 && !blocked {
 			en = append(en, "w")
+		}
+		if (hasTTL && clocks < 3) || (blocked && rowTTL) {
+			en = append(en, "C")
 		}
 		for i, x := range rds {
 			if x.pc > 0 || x.left > 0 {
@@ -331,6 +422,13 @@ func genSchedule(r *kit.Rng, sc *schedCase) []string {
 		}
 		who := kit.Pick(r, en)
 		out = append(out, who)
+		if who == "C" {
+			clocks++
+			if rowTTL {
+				rowLive, rowTTL = false, false
+			}
+			continue
+		}
 		if who == "w" {
 			wPre = true
 			continue
@@ -342,6 +440,8 @@ func genSchedule(r *kit.Rng, sc *schedCase) []string {
 				cached = !storeBig // a delete leaves a "not found" entry; a big value leaves the mark: readers go to the storage
 			} else {
 				storeBig = strings.HasPrefix(sc.Prog[wi], "putbig:")
+				rowLive = sc.Prog[wi] != "del"
+				rowTTL = strings.HasPrefix(sc.Prog[wi], "inst:") || strings.HasPrefix(sc.Prog[wi], "cast:")
 				wLeft--
 				wi++
 				wMid = true
